@@ -14,6 +14,7 @@
 #include <Bpp/Numeric/Prob/GammaDiscreteDistribution.h>
 #include <Bpp/Numeric/Prob/GaussianDiscreteDistribution.h>
 #include <Bpp/Numeric/Prob/ExponentialDiscreteDistribution.h>
+#include <Bpp/Numeric/Prob/TruncatedExponentialDiscreteDistribution.h>
 #include <Bpp/Numeric/Prob/BetaDiscreteDistribution.h>
 #include <Bpp/Numeric/Hmm/FullHmmTransitionMatrix.h>
 #include <Bpp/Numeric/AbstractParametrizable.h>
@@ -111,6 +112,7 @@ static std::string opKs(const Toks& t) {
   if (fam == "dGamma") { GammaDiscreteDistribution d(4, p[0], p[1]); return ks(n, [&] { return d.randC(); }, [&](double x) { return d.pProb(x); }); }
   if (fam == "dGauss") { GaussianDiscreteDistribution d(4, p[0], p[1]); return ks(n, [&] { return d.randC(); }, [&](double x) { return d.pProb(x); }); }
   if (fam == "dExpo") { ExponentialDiscreteDistribution d(4, p[0]); return ks(n, [&] { return d.randC(); }, [&](double x) { return d.pProb(x); }); }
+  if (fam == "dTExpo") { TruncatedExponentialDiscreteDistribution d(4, p[0], p[1]); return ks(n, [&] { return d.randC(); }, [&](double x) { return d.pProb(x); }); }
   if (fam == "dBeta") { BetaDiscreteDistribution d(4, p[0], p[1]); return ks(n, [&] { return d.randC(); }, [&](double x) { return d.pProb(x); }); }
   return "bad-op";
 }
